@@ -326,11 +326,37 @@ def transform_fn(src, spec):
         edits.append((toks[bo].start, "\n" + spec["sig"].rstrip() + "\n"))
     # loops
     lps = loops_in(toks, bo + 1, bc)
+
+    def loop_names(o):
+        """names taken FROM THE SOURCE so that contracts survive renamed locals: for `while <ctr> < <seq>.len() { <acc> = f(<acc>, ..`
+        -> {ctr, seq, acc}; contract text refers to them as \u00a7ctr\u00a7, \u00a7seq\u00a7, \u00a7acc\u00a7."""
+        hdr = src[toks[lps[o][0]].start:toks[lps[o][1]].start]
+        body = src[toks[lps[o][1]].start:toks[lps[o][2]].end]
+        d = {}
+        m = re.search(r"while\s+(\w+)\s*<\s*(\w+)\.len\(\)", hdr)
+        if m:
+            d["ctr"], d["seq"] = m.group(1), m.group(2)
+        m = re.search(r"(\w+)\s*=\s*[\w:]+\(\s*\1\s*,", body) or re.search(r"(\w+)\s*\^=", body)
+        if m:
+            d["acc"] = m.group(1)
+        return d
+
+    def subst(o, text):
+        if "\u00a7" not in text:
+            return text
+        d = loop_names(o)
+        for k in ("ctr", "seq", "acc"):
+            if ("\u00a7%s\u00a7" % k) in text:
+                if k not in d:
+                    raise Inconclusive("lost anchor in fn %s: loop #%d no longer has the shape `while <ctr> < <seq>.len() { <acc> = f(<acc>, ..) }`" % (spec["name"], o))
+                text = text.replace("\u00a7%s\u00a7" % k, d[k])
+        return text
+
     for ordinal, text in (spec.get("loops") or {}).items():
         ordinal = int(ordinal)
         if ordinal >= len(lps):
             raise Inconclusive("lost anchor in fn %s: loop #%d not found (%d loops)" % (spec["name"], ordinal, len(lps)))
-        edits.append((toks[lps[ordinal][1]].start, "\n" + text.rstrip() + "\n"))
+        edits.append((toks[lps[ordinal][1]].start, "\n" + subst(ordinal, text).rstrip() + "\n"))
     nloops = spec.get("expect_loops")
     if nloops is not None and nloops != len(lps):
         raise Inconclusive("fn %s now has %d loops, contract was written for %d" % (spec["name"], len(lps), nloops))
@@ -342,6 +368,7 @@ def transform_fn(src, spec):
             o = int(parts[1])
             if o >= len(lps):
                 raise Inconclusive("lost anchor in fn %s: loop #%d" % (spec["name"], o))
+            text = subst(o, text)
             if parts[2] == "start":
                 edits.append((toks[lps[o][1]].end, "\n" + text + "\n"))
             elif parts[2] == "end":
